@@ -253,3 +253,7 @@ class C11(core.Prop):
 
 
 PROP = C11()
+
+# shape families added after the first complete pass (DESIGN 8.6-8.11); appended to the bounds written into the evidence
+BOUNDS_ADDED = "; plus: every third shape through from_graph, base graph resolved before (virtual node had a fragment then), '.12' ring markers, five virtual nodes in front of a four-bead ring"
+PROP.BOUNDS = {k: v + BOUNDS_ADDED for k, v in PROP.BOUNDS.items()}
